@@ -1,6 +1,7 @@
 package lib
 
 import (
+	"fmt"
 	"net"
 	"regexp"
 	"strconv"
@@ -52,53 +53,56 @@ type RegConfig struct {
 
 // ParseBlocklists converts string arrays of blocklisted domains, addresses and
 // subnets and parses them into a usable format
-func (c *RegConfig) ParseBlocklists() {
+func (c *RegConfig) ParseBlocklists() error {
 	c.covertBlocklistSubnets = []*net.IPNet{}
 	for _, subnet := range c.CovertBlocklistSubnets {
 		_, ipNet, err := net.ParseCIDR(subnet)
-		if err == nil {
-			c.covertBlocklistSubnets = append(c.covertBlocklistSubnets, ipNet)
+		if err != nil {
+			return fmt.Errorf("covert_blocklist_subnets: %w", err)
 		}
+		c.covertBlocklistSubnets = append(c.covertBlocklistSubnets, ipNet)
 	}
 
 	c.covertBlocklistDomains = []*regexp.Regexp{}
 	for _, r := range c.CovertBlocklistDomains {
-		blockedDom := regexp.MustCompile(r)
-		if blockedDom != nil {
-			c.covertBlocklistDomains = append(c.covertBlocklistDomains, blockedDom)
+		blockedDom, err := regexp.Compile(r)
+		if err != nil {
+			return fmt.Errorf("covert_blocklist_domains: %w", err)
 		}
+		c.covertBlocklistDomains = append(c.covertBlocklistDomains, blockedDom)
 	}
 
 	c.phantomBlocklist = []*net.IPNet{}
 	for _, subnet := range c.PhantomBlocklist {
 		_, ipNet, err := net.ParseCIDR(subnet)
-		if err == nil {
-			c.phantomBlocklist = append(c.phantomBlocklist, ipNet)
+		if err != nil {
+			return fmt.Errorf("phantom_blocklist: %w", err)
 		}
+		c.phantomBlocklist = append(c.phantomBlocklist, ipNet)
 	}
 
 	c.covertAllowlistSubnets = []*net.IPNet{}
 	for _, subnet := range c.CovertAllowlistSubnets {
 		_, ipNet, err := net.ParseCIDR(subnet)
-		if err == nil {
-			c.covertAllowlistSubnets = append(c.covertAllowlistSubnets, ipNet)
+		if err != nil {
+			return fmt.Errorf("covert_allowlist_subnets: %w", err)
 		}
+		c.covertAllowlistSubnets = append(c.covertAllowlistSubnets, ipNet)
 	}
 	if len(c.covertAllowlistSubnets) > 0 {
 		c.enableCovertAllowlist = true
 	}
 
 	if c.CovertBlocklistPublicAddrs {
-		// Add all public local addresses to the blocklist.
 		ifaces, err := net.Interfaces()
 		if err != nil {
-			return
+			return fmt.Errorf("covert_blocklist_public_addrs: %w", err)
 		}
 
 		for _, i := range ifaces {
 			addrs, err := i.Addrs()
 			if err != nil {
-				continue
+				return fmt.Errorf("covert_blocklist_public_addrs: %w", err)
 			}
 
 			for _, addr := range addrs {
@@ -106,15 +110,22 @@ func (c *RegConfig) ParseBlocklists() {
 				case *net.IPNet:
 					c.covertBlocklistSubnets = append(c.covertBlocklistSubnets, v)
 				case *net.IPAddr:
-					_, ipNet, err := net.ParseCIDR(v.IP.String() + "\\32")
-					if err == nil {
-						c.phantomBlocklist = append(c.phantomBlocklist, ipNet)
+					bits := 8 * net.IPv6len
+					if v.IP.To4() != nil {
+						bits = 8 * net.IPv4len
 					}
+					_, ipNet, err := net.ParseCIDR(fmt.Sprintf("%s/%d", v.IP.String(), bits))
+					if err != nil {
+						return fmt.Errorf("covert_blocklist_public_addrs: %w", err)
+					}
+					c.phantomBlocklist = append(c.phantomBlocklist, ipNet)
 				}
 
 			}
 		}
 	}
+
+	return nil
 }
 
 // ParseOrResolveBlocklisted attempts to return an IP:port string whenever
